@@ -442,7 +442,7 @@ CLAIMS = {
         text="The one primitive through which calls move value, JournaledState::transfer, is searched over all paths of its MIR control-flow graph (z3 and cvc5) for an "
              "outcome - success, OutOfFunds, OverflowPayment - on which the number of debits differs from the number of credits of the transferred amount; a model is "
              "replayed on the real journaled state with balances at the 2^256 boundary. The same search decides JournaledState::selfdestruct (a zeroed balance with another "
-             "beneficiary was credited to it first) and reimburse_caller (credited exactly once on every non-error return).",
+             "beneficiary was credited to it first) and reimburse_caller (credited exactly once on every non-error return); a provenance-flow execution of transfer (balance reads stamped with the number of stores before them) decides that the credit is computed from the recipient's balance as it is after the debit was stored, so a transfer from an account to itself neither mints nor burns; the per-gas price paid to the beneficiary is followed back from its use in reward_beneficiary and must be effective_gas_price (- basefee).",
         note="Partial: `transfer` (debits == credits on every outcome), `selfdestruct` (a zeroed balance with a different beneficiary is always credited) and "
              "`reimburse_caller` (the caller is credited on every non-error path); amounts, the transaction-level sum and the other fee moves are outside.",
         technique="SMT path search (z3+cvc5) over the MIR control-flow graph with debit/credit classification of balance stores; native replay",
@@ -451,13 +451,13 @@ CLAIMS = {
         text="The transaction-level gas bookkeeping is decided on the real functions for all 64-bit values: last_frame_return (gas used <= limit, whole limit on a halt, "
              "unspent gas back on success/revert, refund only on success) and refund (final refund = min(recorded, spent/5 | spent/2)) by CBMC on a real Context; the "
              "EIP-7623 floor step is read off the MIR of transact_preverified_inner and its arithmetic is compared by z3/cvc5 with max(spent - refund, floor); the prices and amounts of the fee "
-             "payments are followed by MIR data flow (beneficiary: effective_gas_price or effective_gas_price - basefee, times spent - refunded; reimbursement: effective_gas_price times remaining + refunded).",
+             "payments are followed by MIR data flow (beneficiary: effective_gas_price or effective_gas_price - basefee, times spent - refunded; reimbursement: effective_gas_price times remaining + refunded); the intrinsic gas and the EIP-7623 floor that feed these steps are decided against the EIP formulas by the validate_initial_tx_gas harnesses shared with C02 (Prague and Cancun, create and call).",
         note="Partial: that the fee payments land on the right accounts with the journal, the per-transaction sum and `intrinsic <= used` are outside (journal, hash maps).",
         technique="Kani/CBMC on the real last_frame_return/refund (full u64 domain) + MIR structure scan with SMT arithmetic check of the floor step",
         engine="kani-cbmc + smt-mir", design_ref="DESIGN.md §5 C09"),
     "C10": dict(
         text="In a static frame every state-changing opcode function is run on symbolic operands with a host on which any call is a failure: CBMC shows the "
-             "result is the static-mode error, nothing is charged, no action is scheduled and the host is never reached; a value-bearing CALL is rejected for every non-zero value (thorough tier), and the rejection guard of CALL and EXTCALL is read off MIR and decided "
+             "result is the static-mode error, nothing is charged, no action is scheduled and the host is never reached; SSTORE, CREATE, CREATE2 and SELFDESTRUCT also under the Byzantium / Petersburg / Istanbul rule sets; a value-bearing CALL is rejected for every non-zero value (thorough tier), and the rejection guard of CALL and EXTCALL is read off MIR and decided "
              "to be `is_static && value != 0` over all 256 bits. The static flag handed to child frames is read off the MIR of all seven call opcodes and compared by z3/cvc5 with the required value.",
         note="The end-state-equals-start-state half of the property needs journal revert and is outside. Flag propagation is a structural (MIR) check.",
         technique="Kani/CBMC on the real opcode functions in static mode + MIR aggregate scan with SMT equivalence (z3+cvc5)",
